@@ -498,6 +498,26 @@ func init() {
 		Run: func(c *ev.Ctx, r *ev.Report) {
 			seen := ev.NewHashSet(29)
 			n := 0
+			// invalid-UTF-8 volume stratum (cheap): the repair pass works in rounds of 4096 positions
+			for vi, vd := range volumeDocs() {
+				if !c.Mine(290000 + vi) {
+					continue
+				}
+				for ti := range dests {
+					for ci := range cfgs {
+						cfg := &cfgs[ci]
+						if !cfg.strict || cfg.int64 || strings.Contains(cfg.name, "UseNumber") {
+							continue
+						}
+						r.Evaluations++
+						r.Count("utf8_volume_cases", 1)
+						c.SetCase(fmt.Sprintf(`{"cfg":%q,"type":%q,"doc_hex":"%x"}`, cfg.name, dests[ti].Name, vd))
+						if v := c01judge(cfg, dests[ti], []byte(vd)); v != nil {
+							r.Violate(*v)
+						}
+					}
+				}
+			}
 			// field-lookup stratum first (cheap): wide structs x documents naming each field
 			c01fieldCases(c, func(t gen.TypeCase, doc []byte) bool {
 				for ci := range cfgs {
